@@ -78,9 +78,22 @@ pub struct SimSource<'a> {
 	last_fill_len: usize,
 	digest: Fnv,
 	pub stats: SourceStats,
+	/// mirror of `pos` that can be read while the source is mutably borrowed by a reader built on it
+	pos_mirror: Option<std::rc::Rc<std::cell::Cell<usize>>>,
 }
 
 impl<'a> SimSource<'a> {
+	/// a handle through which the number of bytes consumed so far can be read while a reader owns `&mut self`
+	pub fn position_handle(&mut self) -> std::rc::Rc<std::cell::Cell<usize>> {
+		let h = std::rc::Rc::new(std::cell::Cell::new(self.pos));
+		self.pos_mirror = Some(h.clone());
+		h
+	}
+	fn mirror(&self) {
+		if let Some(h) = &self.pos_mirror {
+			h.set(self.pos);
+		}
+	}
 	pub fn new(data: &'a [u8], plan: RefillPlan) -> Self {
 		let step_budget = 256 + 16 * data.len() as u64;
 		SimSource {
@@ -94,6 +107,7 @@ impl<'a> SimSource<'a> {
 			last_fill_len: 0,
 			digest: Fnv::new(),
 			stats: SourceStats::default(),
+			pos_mirror: None,
 		}
 	}
 	pub fn with_faults(mut self, faults: Vec<SourceFault>) -> Self {
@@ -178,6 +192,7 @@ impl<'a> io::Read for SimSource<'a> {
 		let n = buf.len().min(self.chunk_end - self.pos);
 		buf[..n].copy_from_slice(&self.data[self.pos..self.pos + n]);
 		self.pos += n;
+		self.mirror();
 		self.last_fill_len = 0;
 		self.digest.u64(n as u64);
 		Ok(n)
@@ -207,6 +222,7 @@ impl<'a> io::BufRead for SimSource<'a> {
 		} else {
 			self.pos += amt;
 		}
+		self.mirror();
 	}
 }
 
